@@ -84,13 +84,15 @@ VO="-vfyopt distid:1234567812345678"; ext caAint ca ""; openssl x509 -req $VO -i
 openssl x509 -req $VO -in srvint-sign.csr -CA caAint.cert.pem -CAkey caAint.key.pem -out srvint-sign.cert.pem -extfile srvint-sign.ext -not_before $VB -not_after $VA -sm3 -sigopt distid:1234567812345678 -set_serial 4243 2>/dev/null
 openssl x509 -req $VO -in srvint-enc.csr -CA caAint.cert.pem -CAkey caAint.key.pem -out srvint-enc.cert.pem -extfile srvint-enc.ext -not_before $VB -not_after $VA -sm3 -sigopt distid:1234567812345678 -set_serial 4244 2>/dev/null
 rm -f *.csr *.ext *.srl
+echo "# note: openssl verify applies -vfyopt distid only at depth 0, so chains through the SM2 intermediate are verified by gmsm and refsm2 instead (see DESIGN.md Appendix F)"
 # cross-check log
+set +e
 {
   echo "# openssl verify log ($(openssl version))"
   for c in srv-sign srv-enc srv2-sign srv2-enc srvother-sign srvother-enc srvrsa srvp256 cli caAint; do openssl verify -vfyopt distid:1234567812345678 -CAfile caA.cert.pem $c.cert.pem 2>&1; done
   for c in srvint-sign srvint-enc; do openssl verify -vfyopt distid:1234567812345678 -CAfile caA.cert.pem -untrusted caAint.cert.pem $c.cert.pem 2>&1; done
   for c in srvB-sign srvB-enc cliB; do openssl verify -vfyopt distid:1234567812345678 -CAfile caB.cert.pem $c.cert.pem 2>&1; done
-  for c in tlsrsa tlsp256 tlsclirsa; do openssl verify -vfyopt distid:1234567812345678 -CAfile rsaCA.cert.pem $c.cert.pem 2>&1; done
+  for c in tlsrsa tlsp256 tlsclirsa; do openssl verify -CAfile rsaCA.cert.pem $c.cert.pem 2>&1; done
   echo "# expected failures (expired / not yet valid at the real clock is irrelevant; -attime 2030-01-01 = 1893456000)"
   for c in srvexp-sign srvfut-sign srvnarrow-sign cliexp; do openssl verify -vfyopt distid:1234567812345678 -attime 1893456000 -CAfile caA.cert.pem $c.cert.pem 2>&1 | tail -1; done
 } > openssl_verify.log
